@@ -30,6 +30,21 @@ H = os.path.join(core.VERIF, "harness", "h11_options.py")
 LOW = [ord(c) for c in "abz09_"]
 MIXED = [ord(c) for c in "aZ9_ -."]
 VERSIONS = ["", "v1", "v1beta1", "v1p1beta1"]
+# version SHAPES for Naming.build: D is a symbolic decimal digit
+VERSION_SHAPES = ["", "vD", "vDD", "vDalpha", "vDbetaD", "vDpD", "vDpDalpha", "vDpDbetaD"]
+
+
+def sym_version(shape, tag):
+    """-> (SymStr, constraints): literal characters of the shape, one symbolic digit per D"""
+    chars, cons = [], []
+    for i, ch in enumerate(shape):
+        if ch == "D":
+            v = z3.Int(f"{tag}d{i}")
+            chars.append(v)
+            cons.append(z3.And(v >= ord("0"), v <= ord("9")))
+        else:
+            chars.append(ord(ch))
+    return bstr.SymStr(chars), cons
 
 
 def template_names():
@@ -193,11 +208,12 @@ def check_naming_build(chk, quick):
     alphabet = [ord(c) for c in "av_09"]
     t0 = time.time()
     leaves = 0
-    for nns, version, override in itertools.product((0, 1, 2, 3), VERSIONS, (0, 1, 2)):
+    for nns, shape, override in itertools.product((0, 1, 2, 3), VERSION_SHAPES, (0, 1, 2)):
+        version, vcons = sym_version(shape, "v")
         cex = None
         for lens in itertools.product(range(1, seglen + 1), repeat=nns + 1):
             segs = [bstr.fresh_string(f"p{i}", l) for i, l in enumerate(lens)]
-            base = []
+            base = list(vcons)
             for s_ in segs:
                 base += bstr.alphabet_constraints(s_, alphabet)
                 base.append(z3.And(s_.c[0] != ord("0"), s_.c[0] != ord("9")))   # protoc: identifiers do not start with a digit
@@ -205,7 +221,7 @@ def check_naming_build(chk, quick):
             for s_ in segs:
                 if len(s_) >= 2:
                     base.append(z3.Not(z3.And(s_.c[0] == ord("v"), z3.Or(s_.c[1] == ord("0"), s_.c[1] == ord("9")))))
-            pkg = bstr.S(".").join(segs + ([bstr.S(version)] if version else []))
+            pkg = bstr.S(".").join(segs + ([version] if shape else []))
             opts = NS(old_naming=False, name="", namespace=(), warehouse_package_name="", proto_plus_deps=())
             if override == 1:
                 opts.name = bstr.S("my_name")
@@ -225,7 +241,8 @@ def check_naming_build(chk, quick):
                     phi = bstr.b_and([len(got_ns) == len(exp_ns)] +
                                      ([bstr.eq_chars(a.c, b.c) for a, b in zip(got_ns, exp_ns)] if len(got_ns) == len(exp_ns) else []) +
                                      [bstr.eq_chars(bstr.S(info.name).c, exp_name.c),
-                                      bstr.eq_chars(bstr.S(info.version).c, bstr.chars_of(version))])
+                                      (len(bstr.S(info.version)) == len(version)) and
+                                      bstr.eq_chars(bstr.S(info.version).c, version.c)])
                     ok, m = c.valid(phi)
                     if not ok:
                         cex = bstr.model_string(m, pkg)
@@ -234,7 +251,7 @@ def check_naming_build(chk, quick):
                 bstr.ALLOW_ID_HASH = False
             if cex:
                 break
-        key = f"ns={nns},version={version!r},override={override}"
+        key = f"ns={nns},version-shape={shape!r},override={override}"
         if cex is None:
             chk.ok("naming", key)
         else:
